@@ -81,8 +81,11 @@ func replay(raw json.RawMessage) (string, string) {
 }
 
 // evalCase returns (kind, message, whether the reference model predicts a failure).
+// longLived is one composer for the whole process, as on a real node (state leaking between calls would show).
+var longLived = doccomposer.New()
+
 func evalCase(c *Case) (string, string, bool) {
-	comp := doccomposer.New()
+	comp := longLived
 	pre, err := toPatches(c.Prefix)
 	if err != nil {
 		return "bad-case", err.Error(), false
@@ -307,7 +310,7 @@ func evalConv(c *ConvCase) (string, string) {
 		return "C17/conversion-rejected", fmt.Sprintf("PatchesFromDocument rejected a well-formed document: %v; doc %s", err, raw)
 	}
 	var out document.Document
-	if p := ev.Catch(func() { out, err = doccomposer.New().ApplyPatches(make(document.Document), ps) }); p != "" {
+	if p := ev.Catch(func() { out, err = longLived.ApplyPatches(make(document.Document), ps) }); p != "" {
 		return "C17/panic", "ApplyPatches panicked on converted patches: " + p
 	}
 	if err != nil {
